@@ -25,7 +25,7 @@ theorem dndm_eq (hB : ρ "flag:isinstance(self.hmf, ff.Behroozi)" ≤ 0.5) (hD :
   have h1 : ¬ (5 * 10 ^ (-1:ℤ) < ρ "flag:isinstance(self.hmf, ff.Behroozi)") := by norm_num; linarith
   have h2 : (5 * 10 ^ (-1:ℤ) < ρ "flag:self.disable_mass_conversion") := by norm_num; linarith
   simp only [h1, h2, decide_false, decide_true, if_true, if_false, Bool.false_eq_true]
-  split_ifs <;> (try simp [zpow_ofNat])
+  split_ifs <;> expr_finish
 
 /-- the same when the fit has no measured mass definition or it equals the requested one
     (conversion enabled but nothing to convert) -/
@@ -35,7 +35,7 @@ theorem dndm_eq_same_definition (hB : ρ "flag:isinstance(self.hmf, ff.Behroozi)
   simp only [Gen.Flow.MassFunction_dndm]; expr_unfold; push_cast
   have h1 : ¬ (5 * 10 ^ (-1:ℤ) < ρ "flag:isinstance(self.hmf, ff.Behroozi)") := by norm_num; linarith
   simp only [h1, hS, decide_false, decide_true, if_true, if_false, Bool.false_eq_true, ne_eq, not_true_eq_false]
-  split_ifs <;> simp_all [zpow_ofNat]
+  split_ifs <;> first | (simp_all [zpow_ofNat]; done) | (exfalso; simp_all; done) | (simp only [zpow_ofNat]; ring_nf; done) | (simp only [zpow_ofNat]; field_simp; done) | expr_finish
 
 /-- the Behroozi fit only goes through its own documented correction (the plain product is not returned) -/
 theorem behroozi_only_adds_correction (hB : 0.5 < ρ "flag:isinstance(self.hmf, ff.Behroozi)") :
@@ -46,18 +46,18 @@ theorem behroozi_only_adds_correction (hB : 0.5 < ρ "flag:isinstance(self.hmf, 
 
 /-- dndlnm = m · dndm -/
 theorem dndlnm_eq : evalR opq ρ Gen.Flow.MassFunction_dndlnm = ρ "m" * ρ "dndm" := by
-  simp only [Gen.Flow.MassFunction_dndlnm]; expr_unfold
+  simp only [Gen.Flow.MassFunction_dndlnm]; expr_unfold <;> expr_finish
 /-- dndlog10m = ln(10) · m · dndm -/
 theorem dndlog10m_eq : evalR opq ρ Gen.Flow.MassFunction_dndlog10m = Real.log 10 * (ρ "m" * ρ "dndm") := by
-  simp only [Gen.Flow.MassFunction_dndlog10m]; expr_unfold; push_cast; norm_num; ring
+  simp only [Gen.Flow.MassFunction_dndlog10m]; expr_unfold <;> first | (push_cast; norm_num; ring) | expr_finish
 /-- ν = (δc/σ)² -/
 theorem nu_eq : evalR opq ρ Gen.Flow.MassFunction_nu = (ρ "delta_c" / ρ "sigma") ^ 2 := by
-  simp only [Gen.Flow.MassFunction_nu]; expr_unfold; simp [zpow_ofNat]
+  simp only [Gen.Flow.MassFunction_nu]; expr_unfold <;> expr_finish
 /-- σ(m,z) = growth_factor(z) × σ₀(m) and σ₀ = normalisation × un-normalised σ -/
 theorem sigma_eq : evalR opq ρ Gen.Flow.MassFunction_sigma = ρ "_sigma_0" * ρ "growth_factor" := by
-  simp only [Gen.Flow.MassFunction_sigma]; expr_unfold
+  simp only [Gen.Flow.MassFunction_sigma]; expr_unfold <;> expr_finish
 theorem sigma0_eq : evalR opq ρ Gen.Flow.MassFunction__sigma_0 = ρ "_normalisation" * ρ "_unn_sigma0" := by
-  simp only [Gen.Flow.MassFunction__sigma_0]; expr_unfold
+  simp only [Gen.Flow.MassFunction__sigma_0]; expr_unfold <;> expr_finish
 /-- f is the stand-alone component's value (the quantity is a pure forward of `hmf.fsigma`) -/
 theorem fsigma_is_component : evalR opq ρ Gen.Flow.MassFunction_fsigma = ρ "hmf.fsigma" := by
   simp only [Gen.Flow.MassFunction_fsigma]; expr_unfold
@@ -65,10 +65,10 @@ theorem fsigma_is_component : evalR opq ρ Gen.Flow.MassFunction_fsigma = ρ "hm
 theorem lnsigma_eq : evalR opq ρ Gen.Flow.MassFunction_lnsigma = Real.log (1 / ρ "sigma") := by
   simp only [Gen.Flow.MassFunction_lnsigma]; expr_unfold; norm_num
 theorem mean_density_eq : evalR opq ρ Gen.Flow.MassFunction_mean_density = ρ "mean_density0" * (1 + ρ "z") ^ 3 := by
-  simp only [Gen.Flow.MassFunction_mean_density]; expr_unfold; push_cast; simp [zpow_ofNat]
+  simp only [Gen.Flow.MassFunction_mean_density]; expr_unfold <;> expr_finish
 /-- the mass grid: m_i = 10^(Mmin + i·dlog10m) -/
 theorem m_grid : evalR opq ρ Gen.Flow.MassFunction_m = (10:ℝ) ^ (ρ "Mmin" + ρ "idx" * ρ "dlog10m") := by
-  simp only [Gen.Flow.MassFunction_m]; expr_unfold; push_cast; norm_num
+  simp only [Gen.Flow.MassFunction_m]; expr_unfold <;> first | (push_cast; norm_num; done) | (push_cast; norm_num; ring_nf; done) | expr_finish
 
 /-- sign clauses: m > 0; dndm ≥ 0 when f ≥ 0 and ρ₀ ≥ 0 -/
 theorem m_pos : 0 < evalR opq ρ Gen.Flow.MassFunction_m := by
